@@ -19,6 +19,6 @@ If not, see <https://www.gnu.org/licenses/>.
 ---
 """
 
-from .sdar import *
+from moto_lib.fs_disk.cli import DiskArchiveCli
 
 __all__ = ["DiskArchiveCli"]
